@@ -65,6 +65,35 @@ static void harness() {
     lcst_t c(e1, lcst_t::INEQUALITY);
     check(iff(hold(c.rename(m), s2), hold(c, S)), "rename(constraint)");
   }
+  // renamings that are not injective on the expression: x0 -> x1 (x1 occurs), and {x0 -> x2, x1 -> x2};
+  // eval(rename(e, rho), sigma) == eval(e, sigma o rho) for every valuation sigma
+  {
+    std::map<var_t, var_t> m;
+    m.insert({V[0], V[1]});
+    std::vector<term> pre = S; // sigma o rho
+    pre[0] = S[1];
+    term expect = term(CO[0]) * pre[0] + term(CO[1]) * pre[1] + c1;
+    check(ev(e1.rename(m), S) == expect, "eval(rename(e)), target occurs in e");
+    for (int i = 0; i < 4; i++) {
+      lcst_t c(e1, (lcst_t::kind_t[]){lcst_t::INEQUALITY, lcst_t::STRICT_INEQUALITY, lcst_t::EQUALITY, lcst_t::DISEQUATION}[i]);
+      check(iff(hold(c.rename(m), S), hold(c, pre)), "rename(constraint), target occurs in e");
+    }
+    std::map<var_t, var_t> m2;
+    m2.insert({V[0], V[2]});
+    m2.insert({V[1], V[2]});
+    std::vector<term> pre2 = S;
+    pre2[0] = S[2];
+    pre2[1] = S[2];
+    term expect2 = term(CO[0]) * pre2[0] + term(CO[1]) * pre2[1] + c1;
+    lexp_t r2 = e1.rename(m2);
+    check(ev(r2, S) == expect2, "eval(rename(e)), two variables onto one");
+    if (CO[0] + CO[1] == 0) { // the terms cancel: the renamed expression is constant and the tests on it are exact
+      check(form(B(r2.is_constant())), "rename: cancelling terms leave a constant expression");
+      lcst_t c(r2, lcst_t::INEQUALITY);
+      bool taut = B(c.is_tautology()), contra = B(c.is_contradiction());
+      check(iff(form(taut), c1 <= term(0)) && iff(form(contra), !(c1 <= term(0))), "tautology / contradiction exact after a cancelling renaming");
+    }
+  }
   // constraint negation is the exact complement over the integers
   lcst_t::kind_t kinds[4] = {lcst_t::INEQUALITY, lcst_t::STRICT_INEQUALITY, lcst_t::EQUALITY, lcst_t::DISEQUATION};
   for (int i = 0; i < 4; i++) {
